@@ -179,6 +179,7 @@ func bitsSet(b []byte) []int {
 
 func execAtt(ops []AOp) (steps []string, done []AOp, st seqStats) {
 	ap := pool.NewAttestationPool(spec)
+	comms := map[string]common.CommitteeIndices{}
 	roots := map[common.Root]DataSpec{}
 	back := func(r common.Root) DataSpec {
 		if d, ok := roots[r]; ok {
@@ -191,12 +192,28 @@ func execAtt(ops []AOp) (steps []string, done []AOp, st seqStats) {
 		case "add":
 			att := op.Att.goAtt()
 			roots[att.Data.HashTreeRoot(tree.GetHashFn())] = op.Att.Data
-			comm := make(common.CommitteeIndices, len(op.Comm))
-			for i, v := range op.Comm {
-				comm[i] = common.ValidatorIndex(v)
+			// the committee is the caller's slice (a client passes the slice cached in its epochs context, the same one for
+			// every attestation of that committee): it is shared between calls here, and must come back unchanged
+			ckey := fmt.Sprint(op.Comm)
+			comm, shared := comms[ckey]
+			if !shared {
+				comm = make(common.CommitteeIndices, len(op.Comm))
+				for i, v := range op.Comm {
+					comm[i] = common.ValidatorIndex(v)
+				}
+				comms[ckey] = comm
 			}
 			var err error
 			p, pv := Catch(func() { err = ap.AddAttestation(context.Background(), att, comm) })
+			if !p {
+				for i, v := range op.Comm {
+					if i >= len(comm) || comm[i] != common.ValidatorIndex(v) {
+						// reported like a crash of the call: the model has no outcome "returned but rewrote its argument"
+						p, pv = true, fmt.Sprintf("AddAttestation returned (%v) but changed the caller's committee slice %v into %v", err, op.Comm, comm)
+						break
+					}
+				}
+			}
 			op.Go = resWord(err, p, pv)
 			steps = append(steps, fmt.Sprintf("(AAdd %s %s, OAdd %s)", op.Att.coq(), coqNs(op.Comm), goUnit(err, p)))
 			done = append(done, op)
